@@ -72,6 +72,7 @@ type Run struct {
 	assumes  int
 	obligs   int
 	threads  *threadState
+	pools    map[*value][]value // sync.Pool model: objects put back, per pool
 	exitCode *int
 	why      string
 	qkinds   map[string]int
